@@ -26,10 +26,24 @@ def seeded():
         rows.append(f"| `seeded/{d.name}` | {', '.join(j.get('breaks', []))} | {cell(j.get('summary'))} | {cell(j.get('needs'))} | {cell(c.get('suite_with_change'))} | {', '.join(caught) or '**missed**'} | {', '.join(wf) or ('no-failing-input-found' if caught else '—')} |")
     return "\n".join(rows)
 
+def theorems():
+    import importlib, sys
+    sys.path.insert(0, str(ROOT / "py"))
+    rows = ["| property | # | property theorems (all `#print axioms`-audited on every run) |", "|---|---|---|"]
+    total = 0
+    for f in sorted((ROOT / "py" / "verifpy" / "props").glob("c[0-9][0-9].py")):
+        mod = importlib.import_module(f"verifpy.props.{f.stem}")
+        th = list(getattr(mod, "THEOREMS", []))
+        total += len(th)
+        rows.append(f"| {f.stem.upper()} | {len(th)} | " + ", ".join(f"`{t}`" for t in th) + " |")
+    rows.append(f"| all | {total} | |")
+    return "\n".join(rows)
+
+
 def main():
     p = ROOT / "DESIGN.md"
     s = p.read_text()
-    for tag, fn in (("FINDINGS", findings), ("SEEDED", seeded)):
+    for tag, fn in (("FINDINGS", findings), ("SEEDED", seeded), ("THEOREMS", theorems)):
         s = re.sub(rf"(<!-- {tag}:BEGIN -->).*?(<!-- {tag}:END -->)", lambda m: m.group(1) + "\n" + fn() + "\n" + m.group(2), s, flags=re.S)
     p.write_text(s)
 
